@@ -63,10 +63,13 @@ theorem applyKey_all (vs : List Val) (key : String) (d : Val) (cs : List (Option
     applyKey (.doc [("$all", .arr vs)]) key d = allOp (.arr vs) (.list cs) := by
   have hpe : pyEq (Val.doc [("$all", .arr vs)]) (Val.doc [("$exists", Val.bool false)]) = false := by
     simp [pyEq, pyEqFields, dget]
+  have hck' : checkUnknownOps ["$all"] = .ok () := by decide
+  have ho : ("$options" == "$all") = false := by decide
   rw [applyKey.eq_1]
   simp only [hck, bind, Except.bind, dkeys, List.map_cons, List.map_nil, hpe, Bool.false_and,
     Bool.false_eq_true, ↓reduceIte, List.contains_cons, List.contains_nil, beq_self_eq_true,
-    Bool.true_or, allPre, List.length_cons, List.length_nil, Bool.and_self]
+    Bool.true_or, allPre, List.length_cons, List.length_nil, Bool.and_self, hck', ho,
+    Bool.or_false, Bool.and_false, ite_self]
   rcases allOp (.arr vs) (.list cs) with e | b
   · rfl
   · cases b <;> rfl
